@@ -190,6 +190,9 @@ const TRICKY_DOCS: &[&str] = &[
     "<a>x<![CDATA[y]]>z<![CDATA[]]><![CDATA[]]>w<b/><![CDATA[]]>t</a>",
     "<a xmlns:p=\"u\" p:xmlns=\"v\" xmlns=\"w\"><b p:xmlns=\"\"/></a>",
     "<?xml-stylesheet encoding=\"ISO-8859-1\"?><?XMLx?><a>\u{e9}<?xmlns a?></a>",
+    "<a>x<![CDATA[y\rz]]>w<![CDATA[\r\n]]><![CDATA[q\r]]></a>",
+    "<a xmlns:p=\"a&amp;amp;amp;r\" xmlns=\"&amp;#38;#9;\"><p:b p:k=\"&amp;amp;\"/></a>",
+    "<a xmlns:XML=\"urn:x\" XML:lang=\"en\" xml:lang=\"de\"><XML:b/></a>",
 ];
 
 fn arbitrary_text(rng: &mut Rng) -> String {
@@ -514,7 +517,7 @@ pub fn break_it(doc: &ANode, r: &Rendered, k: usize, rng: &mut Rng, fragment: bo
                 let c = *rng.pick(&["\u{c}", "\u{b}", "\u{a0}", "\u{85}"]);
                 return b(format!("<?xml{}version=\"1.0\"?>{}", c, t), "declaration-target-followed-by-non-xml-space", true);
             }
-            let v = *rng.pick(&["1.1", "2.0"]);
+            let v = *rng.pick(&["1.1", "2.0", "1.00", "1.000", "01.0", "1.0 ", "1"]);
             b(format!("<?xml version=\"{}\"?>{}", v, t), "version-not-1.0", true)
         }
         28 => {
